@@ -116,6 +116,11 @@ class Exec(ExprMixin, StmtMixin, LoopMixin, ModelMixin):
             return z3.Exists([k], v.mem(k))
         if isinstance(v, (SeqV, MapV)):
             return v.n > 0
+        if isinstance(v, HeapListRef):
+            return self.heap[v.hm.name][1][v.key] > 0
+        if isinstance(v, ArrDict):
+            t = self.bound("t", T.Val)
+            return z3.Exists([t], v.present[t])
         raise Unsupported(f"truthiness of {v!r}")
 
     def truth(self, v) -> bool:
